@@ -17,7 +17,11 @@ func init() {
 		vpRunGroups(keys, groups, env.seed, func(rng *mrand.Rand, key string, cs []*vpCase) {
 			cm := vpM(cs[0].In, "cfg")
 			cfg := &vpCfg{Store: "cookie", Refresh: 3600, Bearer: true, AllowUnverifiedEmail: vpB(cm, "allowUnverified"),
-				StaticKeys: vpS(cm, "keys") == "static", Legacy: map[string]bool{"passAccessToken": true}}
+				StaticKeys: vpS(cm, "keys") == "static", JWKSURLOnly: vpS(cm, "keys") == "jwks", Legacy: map[string]bool{"passAccessToken": true}}
+			custom := vpS(cm, "claimMap") == "custom"
+			if custom {
+				cfg.EmailClaim, cfg.GroupsClaim = "mail", "roles"
+			}
 			audClaim := vpS(cm, "audClaim")
 			if audClaim == "azp" {
 				cfg.AudienceClaims = []string{"azp"}
@@ -38,6 +42,9 @@ func init() {
 				path := vpS(c.In, "path")
 				claimsVar := vpS(tok, "claims")
 				mut := func(cl map[string]interface{}) {
+					// every token carries custom claims next to the standard ones (used only when the operator configured them)
+					cl["mail"] = "custom-alice@example.com"
+					cl["roles"] = []string{"r1", "r2"}
 					if vpS(tok, "iss") == "other" {
 						cl["iss"] = "https://evil.example"
 					}
@@ -96,7 +103,11 @@ func init() {
 					w.idp.userinfoClaims["groups"] = nil
 				}
 				w.idp.signAlg = "RS256"
-				w.idp.mutateClaims = nil
+				baseMut := func(k string, cl map[string]interface{}) {
+					cl["mail"] = "custom-alice@example.com"
+					cl["roles"] = []string{"r1", "r2"}
+				}
+				w.idp.mutateClaims = baseMut
 				w.idp.mu.Unlock()
 				alg := map[string]string{"right": "RS256", "otherkey": "otherkey", "algnone": "none", "hs256pub": "HS256pub"}[vpS(tok, "sig")]
 				jar := vpNewJar()
@@ -106,6 +117,7 @@ func init() {
 					w.idp.mu.Lock()
 					w.idp.signAlg = alg
 					w.idp.mutateClaims = func(k string, cl map[string]interface{}) {
+						baseMut(k, cl)
 						if k == kind {
 							mut(cl)
 						}
@@ -159,7 +171,7 @@ func init() {
 						continue
 					}
 					w.idp.mu.Lock()
-					w.idp.mutateClaims = nil
+					w.idp.mutateClaims = baseMut
 					saveMode := w.idp.refreshMode
 					w.idp.refreshMode = "fail"
 					w.idp.mu.Unlock()
@@ -198,6 +210,8 @@ func init() {
 							return "tok"
 						case profv:
 							return "prof"
+						case "custom-alice@example.com", "r1,r2":
+							return "custom"
 						}
 						return "other:" + v
 					}
